@@ -186,20 +186,29 @@ def fits_bounded_instance():
         mask = rng.rand(F, K, N) < 0.9
         mask[:, :, 0] = True
 
+        # the relabelled fit runs on the trainer object of the first fit for odd seeds (a trainer is reusable), else on a new one
+        share = bool(inp['seed'] % 2)
+        pool = {}
+
+        def trainer(cls):
+            if not share:
+                return cls()
+            return pool.setdefault(cls, cls())
+
         def run(ii, mm):
             if which.startswith('gcacgmm') or which.startswith('vmfcacgmm'):
                 cls = GCACGMMTrainer if which.startswith('gcacgmm') else VMFCACGMMTrainer
-                tr = cls()
+                tr = trainer(cls)
                 ipa = which.endswith('-ipa')
                 m = tr.fit(y, emb, initialization=ii, iterations=max(it, 2) if ipa else it, weight_constant_axis=inp['wca'],
                            inline_permutation_alignment=ipa)
                 return m.predict(y, emb)
             if which == 'cacgmm-mask':
-                m = CACGMMTrainer().fit(y, initialization=ii * mm, iterations=it, source_activity_mask=mm, weight_constant_axis=inp['wca'])
+                m = trainer(CACGMMTrainer).fit(y, initialization=ii * mm, iterations=it, source_activity_mask=mm, weight_constant_axis=inp['wca'])
                 return m.predict(y, source_activity_mask=mm)
             cls = {'cacgmm': CACGMMTrainer, 'cwmm': CWMMTrainer, 'vmfmm': VMFMMTrainer, 'cbmm': CBMMTrainer}.get(which, GMMTrainer)
             kw = {'covariance_type': which[4:]} if which.startswith('gmm') else {}
-            m = cls().fit(y, initialization=ii, iterations=it, weight_constant_axis=inp['wca'], **kw)
+            m = trainer(cls).fit(y, initialization=ii, iterations=it, weight_constant_axis=inp['wca'], **kw)
             return m.predict(y)
         base = run(init, mask)
         per = run(init[:, perm], mask[:, perm])
